@@ -2032,11 +2032,12 @@ class TargetRegistry:
                     else:
                         ret = type_map[closest]
 
-            if ret is False and raise_exc:
-                raise UnregisteredTarget(op, obj_type, type_map=type_map, path=path)
-
             self._type_cache[cache_key] = ret
-        return self._type_cache[cache_key]
+        ret = self._type_cache[cache_key]
+        if ret is False and raise_exc:
+            # also when the miss was memoised by an earlier raise_exc=False lookup
+            raise UnregisteredTarget(op, obj_type, type_map=self.get_type_map(op), path=path)
+        return ret
 
     def get_type_map(self, op):
         try:
